@@ -17,7 +17,7 @@ from pyasn1.codec.native import encoder as nat_enc, decoder as nat_dec
 
 IMPORTS = 'Model.Native'
 CHUNKS = [1, 2, 3, 7]
-FIX_IDS = ('F15', 'F16', 'F40', 'F41', 'F42', 'F43')
+FIX_IDS = ('F15', 'F16', 'F28n', 'F41', 'F42', 'F43')
 
 
 # ---------------------------------------------------------------------------------------------
@@ -159,8 +159,8 @@ def f16_applies(T, v):
     return any(p == 'opt' and fv is None for fs, vs in records(T, v) for (p, _), fv in zip(fs, vs))
 
 
-def f40_applies(T, v):
-    """F40: an absent OPTIONAL member whose own type is a SEQUENCE/SET with members, none mandatory"""
+def f28n_applies(T, v):
+    """F28n: an absent OPTIONAL member whose own type is a SEQUENCE/SET with members, none mandatory"""
     return any(p == 'opt' and fv is None and all_optional_container(ft)
                for fs, vs in records(T, v) for (p, ft), fv in zip(fs, vs))
 
@@ -208,17 +208,19 @@ def f43_applies(T, v, chunk):
 
 def classify_native(T, v):
     if f15_applies(T, v): return 'F15'
-    if f40_applies(T, v): return 'F40'
+    if f28n_applies(T, v): return 'F28n'
     if f41_applies(T, v): return 'F41'
     return None
 
 
 def classify_equiv(T, v, chunk):
     if f15_applies(T, v): return 'F15'
-    if f40_applies(T, v): return 'F40'
+    if f28n_applies(T, v): return 'F28n'
     if f16_applies(T, v): return 'F16'
     if f42_applies(T, v): return 'F42'
     if f43_applies(T, v, chunk): return 'F43'
+    # with a REAL in the type the value object compared against is the tree read back by the native decoder
+    if 'real' in gen.features(T) and f41_applies(T, v): return 'F41'
     return None
 
 
@@ -335,6 +337,25 @@ def variants(ctx, g, c, max_masks):
     return out
 
 
+def mutated_tree(rng, g, T, v):
+    """a tree the native encoder would not produce (model tie only, the property says nothing about it):
+    a key removed from the mapping of a SEQUENCE/SET, or a second alternative added to that of a CHOICE"""
+    b = base_desc(T)
+    try:
+        raw = nat_enc.encode(U.build_value(T, v))
+        if b[0] in ('seq', 'set') and raw:
+            k = rng.choice(sorted(raw))
+            del raw[k]
+            return raw, 'key %s removed' % k
+        if b[0] == 'choice' and len(b[1]) > 1:
+            j = rng.choice([i for i in range(len(b[1])) if i != v[1]])
+            raw['f%d' % j] = nat_enc.encode(U.build_value(b[1][j], g.val(b[1][j])))
+            return raw, 'alternative f%d added' % j
+    except Exception:
+        pass
+    return None
+
+
 # ---------------------------------------------------------------------------------------------
 # one input through the implementation
 
@@ -398,7 +419,8 @@ def run(ctx):
                 'case: the generated value, one value per subset of its OPTIONAL members (all subsets for <= 6, else sampled), one '
                 'per alternative of every CHOICE node.  (a) native encode -> decode, abstract content compared (REAL as float, '
                 'rel 1e-9), both steps against Model/Native.v; (b) types without ANY: encode(tree, asn1Spec) vs encode(value object) '
-                'for BER definite / indefinite / chunk in {1,2,3,7}, CER, DER, bare-value encoder against encode_py.  '
+                'for BER definite / indefinite / chunk in {1,2,3,7}, CER, DER, bare-value encoder against encode_py; model tie only: '
+                'the tree with one key removed (SEQUENCE/SET) or a second alternative added (CHOICE) through decoder and encoders.  '
                 'non-trivial = constructed or tagged type; distinct by (type, value)')
     search_only = getattr(ctx, 'search_only', False)
     cases = codec.gen_cases(ctx, ctx.n(120, 2500), depth=3, reals='all')
@@ -453,10 +475,24 @@ def run(ctx):
                                  'nbytes_code (encode_py %s %s %d T p) %s' % (cd, cbool(defm), chunk, I.coq_res_bytes(b))))
             elif has_any:
                 ctx.stats['equiv_skipped:ANY'] += 1
+            # a tree with a key missing / one alternative too many: decoder and encoders against the model
+            pm_lit = 'PNone'
+            mt = mutated_tree(ctx.rng, g, T, v) if e[0] == 'ok' and not search_only else None
+            if mt is not None:
+                raw_m, what_m = mt
+                ctx.stats['mutated_tree:' + what_m.split(' ')[0]] += 1
+                pm_lit = coq_py(canon(raw_m))
+                dm = guarded(lambda: U.absval_top(nat_dec.decode(raw_m, asn1Spec=U.build_type(T)), T))
+                subs.append(('native decoder, %s' % what_m, 'natdec_code T (of_native T pm) %s' % coq_res(dm, U.coq_aval)))
+                if not has_any:
+                    for cd in ('BER', 'DER'):
+                        bm = I.run_encode(cd, raw_m, asn1Spec=U.build_type(T))
+                        subs.append(('%s bare-value encoder, %s' % (cd, what_m),
+                                     'nbytes_code (encode_py %s true 0 T pm) %s' % (cd, I.coq_res_bytes(bm))))
             if not search_only:
-                exprs.append('let T := %s in let v := %s in let p := %s in codes_max [%s]'
-                             % (c.cty, cval, p_lit, '; '.join(s for _, s in subs)))
-                meta.append((m, c.cty, cval, p_lit, subs))
+                exprs.append('let T := %s in let v := %s in let p := %s in let pm := %s in codes_max [%s]'
+                             % (c.cty, cval, p_lit, pm_lit, '; '.join(s for _, s in subs)))
+                meta.append((m, c.cty, cval, p_lit, pm_lit, subs))
             if e[0] == 'ok' and len(ctx.samples) < 4 and T[0] in ('seq', 'set', 'choice', 'exp') and how != 'generated':
                 ctx.sample({'type': T, 'value': v, 'native': repr(nat_enc.encode(U.build_value(T, v)))[:300]})
     if search_only or not exprs:
@@ -467,9 +503,9 @@ def run(ctx):
     # say which comparison of a disagreeing input it was
     detail, owner = [], []
     for i in bad:
-        m, cty, cval, p_lit, subs = meta[i]
+        m, cty, cval, p_lit, pm_lit, subs = meta[i]
         for what, s in subs:
-            detail.append('let T := %s in let v := %s in let p := %s in %s' % (cty, cval, p_lit, s))
+            detail.append('let T := %s in let v := %s in let p := %s in let pm := %s in %s' % (cty, cval, p_lit, pm_lit, s))
             owner.append((i, what))
     sub_codes = core.coq_codes('c17d', IMPORTS, detail) if detail else {}
     named = {}
